@@ -77,9 +77,9 @@ def run(R, ctx):
 def emission(R, ctx, rule='R01.1', le_check=True, roots=(FILE_ROOT,), le_pattern='line_ending', only=None):
     f = ctx.f
     EFF = [FMT, r'::write_all$', r'State::write_buffer$', r'Vec::<T, A>::(clear|truncate|drain|pop|push|extend_from_slice|insert|remove)$', r'util::eprint_err$',
-           r'try_borrow_mut$', r'Sender::<T>::(send|try_send)$', r'AsyncHandle::send$', r'pop_buffer$', r'with_capacity$', r'as std::iter::Extend<.*>>::extend$',
+           r'try_borrow_mut$', r'Sender::<T>::(send|try_send)$', r'pop_buffer$', r'with_capacity$', r'as std::iter::Extend<.*>>::extend$',
            r'^std::io::_e?print$']
-    NI = [r'State::write_buffer$', r'util::eprint_err$', r'pop_buffer$', r'AsyncHandle::send$']
+    NI = [r'State::write_buffer$', r'util::eprint_err$', r'pop_buffer$']
     EFF = EFF + [r'util::write_buffered$']
     NI = NI + [r'util::write_buffered$']
     for b in emission_bodies(ctx, roots):
@@ -111,10 +111,10 @@ def emission(R, ctx, rule='R01.1', le_check=True, roots=(FILE_ROOT,), le_pattern
             fi = fmts[0]
             X = norm(effs[fi][1][0])
             emits = [i for i, e in enumerate(effs) if (e[0].endswith('State::write_buffer') and norm(e[1][1]) == X) or
-                     (re.search(r'Sender::<T>::(send|try_send)$|AsyncHandle::send$', e[0]) and norm(e[1][1]) == X) or
+                     (re.search(r'Sender::<T>::(send|try_send)$', e[0]) and norm(e[1][1]) == X) or
                      (e[0].endswith('::write_all') and len(e[1]) > 1 and norm(e[1][1]) == X and norm(e[1][0]) != X) or
                      (e[0] in ('std::io::_print', 'std::io::_eprint') and X in r.long(e[1][0]))]
-            other_emits = [i for i, e in enumerate(effs) if (e[0].endswith('State::write_buffer') or re.search(r'Sender::<T>::(send|try_send)$|AsyncHandle::send$', e[0])) and i not in emits]
+            other_emits = [i for i, e in enumerate(effs) if (e[0].endswith('State::write_buffer') or re.search(r'Sender::<T>::(send|try_send)$', e[0])) and i not in emits]
             les = [i for i, e in enumerate(effs) if e[0].endswith('::write_all') and norm(e[1][0]) == X]
             muts = [i for i, e in enumerate(effs) if re.search(r'Vec::<T, A>::(clear|truncate|drain|pop|push|extend_from_slice|insert|remove)$|::extend$', e[0]) and norm(e[1][0]) == X]
             fmt_failed = any(v == 'Err' and 'callptr' in a for a, v in r.cond)
